@@ -2,7 +2,7 @@
 import time
 from lib import vlib
 from lib.vlib import tlc, tlc_require_ok
-from checks.v2common import Acc, trace_leg, cfg_text, fill_legs
+from checks.v2common import Acc, trace_leg, cfg_text, fill_legs, pad_leg
 PID = "C08"
 def run():
     t0 = time.time(); v = vlib.Verdict(PID); acc = Acc(); th = vlib.TIER == "thorough"
@@ -14,6 +14,7 @@ def run():
             raise vlib.Inconclusive("%s did not violate %s: %s" % (cfg, inv, nv.tail[-1500:]))
         acc.tlc.append({"cfg": cfg, "expected_violation": nv.violated})
     fill_legs(v, acc, th)                           # the loop that refills the buffer: every small reader script, and through the real fill()
+    pad_leg(v, acc)                                 # words, lines and notices of multi-byte and hyphenated text at every alignment with the buffer
     recs, lines = trace_leg(v, acc, "c08", [PID])
     acc.nontrivial = len({r["kind"] for r in lines if r.get("ev") == "pair"}) + len({r["want"] for r in lines if r.get("ev") == "fail"})
     acc.extra["pairs"] = sum(1 for r in lines if r.get("ev") == "pair"); acc.extra["failing_reader_calls"] = sum(1 for r in lines if r.get("ev") == "fail")
